@@ -15,11 +15,25 @@ use std::path::{Path, PathBuf};
 fn zs(v: u64) -> String {
     format!("{}", v)
 }
+/// a byte string as `(pk len [w0; w1; ..])`: seven bytes per 63-bit literal, little endian
+/// (a plain `list Z` literal costs Coq's elaborator ~0.6 ms per byte)
 fn bts(b: &[u8]) -> String {
-    coq::bytes(b)
+    let mut s = format!("(pk {} [", b.len());
+    for (i, ch) in b.chunks(7).enumerate() {
+        let mut v: u64 = 0;
+        for (j, x) in ch.iter().enumerate() {
+            v |= (*x as u64) << (8 * j);
+        }
+        if i > 0 {
+            s.push_str("; ");
+        }
+        s.push_str(&v.to_string());
+    }
+    s.push_str("]%uint63)");
+    s
 }
 fn strs(s: &str) -> String {
-    coq::bytes(s.as_bytes())
+    bts(s.as_bytes())
 }
 fn val_bytes(v: &Value) -> Vec<u8> {
     bincode::serde::encode_to_vec(v, bincode::config::standard()).expect("encode value")
@@ -485,10 +499,18 @@ struct Dump {
     nodes: Vec<DNode>,
     edges: Vec<DEdge>,
 }
+thread_local! {
+    /// ids beyond ID_LIMIT that a dump must look at as well (ids named by a decoded snapshot)
+    static EXTRA_IDS: std::cell::RefCell<Vec<u64>> = const { std::cell::RefCell::new(Vec::new()) };
+}
 fn dump_at(db: &GrafeoDB, epoch: EpochId) -> Dump {
     let st = db.store();
     let mut d = Dump::default();
-    for i in 0..ID_LIMIT {
+    let mut ids: Vec<u64> = (0..ID_LIMIT).collect();
+    EXTRA_IDS.with(|e| ids.extend(e.borrow().iter().copied().filter(|i| *i >= ID_LIMIT)));
+    ids.sort();
+    ids.dedup();
+    for i in ids {
         if let Some(n) = st.get_node_at_epoch(NodeId::new(i), epoch) {
             let mut ls: Vec<String> = n.labels.iter().map(|l| l.to_string()).collect();
             ls.sort();
@@ -1608,6 +1630,14 @@ fn copy_short(o: &CopyObs) -> String {
 }
 fn import_obs(b: &[u8]) -> CopyObs {
     let v = b.to_vec();
+    EXTRA_IDS.with(|e| {
+        let mut e = e.borrow_mut();
+        e.clear();
+        if let Some((s, _)) = snap_decode(b) {
+            e.extend(s.nodes.iter().map(|n| n.id.as_u64()));
+            e.extend(s.edges.iter().map(|x| x.id.as_u64()));
+        }
+    });
     match catch(move || match GrafeoDB::import_snapshot(&v) {
         Ok(db) => observe_copy(&db),
         Err(e) => CopyObs::Err(e.to_string()),
@@ -1736,9 +1766,15 @@ fn case_import(bytes: &[u8], what: &str, tags: Vec<String>, valid_len: usize) ->
         ..Default::default()
     };
     match (&obs, &dec) {
-        (CopyObs::Panic(m), _) => {
+        (CopyObs::Panic(m), d) => {
             c.oracle = Oracle::Fail;
             c.msg = format!("import_snapshot panics: {}", m);
+            if let Some((sn, _)) = d {
+                if sn.nodes.iter().any(|n| n.id.as_u64() == u64::MAX) || sn.edges.iter().any(|e| e.id.as_u64() == u64::MAX) {
+                    c.kid = Some("C07-K3".into());
+                    c.kcoq = Some(format!("k07_3 {}", snap_term(sn)));
+                }
+            }
         }
         (CopyObs::Ok(..), Some((_, n))) if *n < bytes.len() => {
             c.oracle = Oracle::Fail;
@@ -1886,6 +1922,15 @@ fn corpus_c07(sc: &mut Scratch, out: &mut Out, r: &mut Rng) {
     let (c, b) = case_snap(sc, &ops, t("clean"));
     out.emit(&c);
     cases_snap_bytes(r, out, &b, false);
+    // a snapshot naming the largest id
+    {
+        let sm = SnapMirror { version: 1, nodes: vec![SnapNode { id: NodeId::new(u64::MAX), labels: l(&["A"]), properties: vec![] }], edges: vec![] };
+        let bytes = bincode::serde::encode_to_vec(&sm, bincode::config::standard()).unwrap();
+        out.emit(&case_import(&bytes, "snapshot with node id u64::MAX", t("id:max"), bytes.len()));
+        let sm = SnapMirror { version: 1, nodes: vec![SnapNode { id: NodeId::new(u64::MAX - 1), labels: l(&["A"]), properties: vec![] }], edges: vec![] };
+        let bytes = bincode::serde::encode_to_vec(&sm, bincode::config::standard()).unwrap();
+        out.emit(&case_import(&bytes, "snapshot with node id u64::MAX-1", t("id:max-1"), bytes.len()));
+    }
     // K1: a node created after the first commit
     let (c, _) = case_snap(sc, &[Op::CreateNode(l(&["A"])), Op::SessTxNode(l(&["B"])), Op::SessNode(l(&["Person"]), vec![], false)], t("witness:K1"));
     out.emit(&c);
